@@ -33,8 +33,35 @@ def corpus(sc, tier):
     return progs
 
 
+def _compare_lirwat(job):
+    (prog, fileA, fileB, mode, bounds, only) = job
+    from vlib import wat
+    L = irsym.Prog(json.load(open(fileA)))
+    M = wat.Module(open(fileB).read())
+    out = []
+    for n in L.fns:
+        if only and only not in n:
+            continue
+        t0 = time.time()
+        try:
+            r = wat.compare_lir_wat(n, L, M, bounds)
+        except irsym.Unsupported as e:
+            r = {"status": "skipped", "why": str(e)}
+        except irsym.Budget as e:
+            r = {"status": "skipped", "why": "budget: %s" % e}
+        except Exception as e:  # noqa
+            import traceback
+            r = {"status": "error", "why": "%r %s" % (e, traceback.format_exc()[-600:])}
+        r["fn"] = n
+        r["wall_s"] = round(time.time() - t0, 2)
+        out.append(r)
+    return (prog, os.path.basename(fileA), os.path.basename(fileB), mode, out, [])
+
+
 def _compare_one(job):
     (prog, fileA, fileB, mode, bounds, only) = job
+    if mode == "lirwat":
+        return _compare_lirwat(job)
     ignore_types = False
     mains_only = False
     if mode.startswith("whole"):
@@ -148,7 +175,7 @@ def run_pipeline(res, tier, sc, drv, only_prog=None):
         if tier == "quick" and name == "repo-tests" and not only_prog:
             continue
         od = os.path.join(outroot, name)
-        p = drv.call(["dump", od, "11111"] + mods, check=False, timeout=600)
+        p = drv.call(["dump", od, "11111,00000"] + mods, check=False, timeout=600)
         try:
             status = json.loads(p.stdout.strip().split("\n")[-1])
         except Exception:
@@ -159,11 +186,12 @@ def run_pipeline(res, tier, sc, drv, only_prog=None):
         if status.get("status") != "ok":
             raise Inconclusive("corpus program %s is not accepted: %s" % (name, str(status)[:500]))
         programs.append(name)
-        v = json.load(open(os.path.join(od, "wasm_validation.json")))
-        if v.get("error"):
-            invalid.append(name)
-            res.violation("emitted WebAssembly module of %s is invalid: %s" % (name, v["error"]),
-                          {"program": name, "modules": mods, "wasmparser": v["error"]})
+        for vf in ("wasm_validation.json", "wasm_validation_00000.json"):
+            v = json.load(open(os.path.join(od, vf)))
+            if v.get("error"):
+                invalid.append(name)
+                res.violation("emitted WebAssembly module of %s is invalid (%s): %s" % (name, vf, v["error"]),
+                              {"program": name, "modules": mods, "wasmparser": v["error"]})
         J = lambda f: os.path.join(od, f)
         jobs.append((name, J("mir_s1_specialized.json"), J("mir_s2_deduplicated.json"), "whole+anytype", wb, None))
         jobs.append((name, J("mir_s2_deduplicated.json"), J("mir_s3_const_param_eliminated.json"), "whole", wb, None))
@@ -171,9 +199,13 @@ def run_pipeline(res, tier, sc, drv, only_prog=None):
         jobs.append((name, J("mir_s3_const_param_eliminated.json"), J("mir_s4_tail_rec_rewritten.json"), "enter", dict(fb, depth=10, forks=6), None))
         jobs.append((name, J("mir_s3_const_param_eliminated.json"), J("mir_s4_tail_rec_rewritten.json"), "whole", wb, None))
         jobs.append((name, J("mir_opt_11111.json"), J("lir.json"), "events", fb, None))
+        jobs.append((name, J("mir_opt_00000.json"), J("lir_00000.json"), "events", fb, None))
+        jobs.append((name, J("lir.json"), J("all.wat"), "lirwat", fb, None))
+        jobs.append((name, J("lir_00000.json"), J("all_00000.wat"), "lirwat", fb, None))
     stats = {"functions_compared": 0, "equal": 0, "different": 0, "skipped": 0, "inconclusive": 0, "error": 0, "pairs": 0, "queries": 0,
              "bound_ref_paths": 0, "bound_new_paths": 0, "fully_covered_functions": 0, "per_stage": {}}
     skipped_why = {}
+    f5 = []
     t0 = time.time()
     with concurrent.futures.ProcessPoolExecutor(max_workers=min(14, max(1, len(jobs)))) as ex:
         for (prog, fa, fb_, mode, out, dropped) in ex.map(_compare_one, jobs):
@@ -188,6 +220,9 @@ def run_pipeline(res, tier, sc, drv, only_prog=None):
                 stats["bound_ref_paths"] += r.get("bound_ref", 0)
                 stats["bound_new_paths"] += r.get("bound_new", 0)
                 ps["bounded_paths"] += r.get("bound_ref", 0) + r.get("bound_new", 0)
+                if r.get("vec_i31_boxing"):
+                    stats["vec_i31_boxing_sites"] = stats.get("vec_i31_boxing_sites", 0) + r["vec_i31_boxing"]
+                    f5.append({"program": prog, "function": r["fn"], "witness": r.get("boxing_witness")})
                 if r["status"] == "equal":
                     ps["equal"] += 1
                     if not r.get("bound_ref") and not r.get("bound_new"):
@@ -205,5 +240,44 @@ def run_pipeline(res, tier, sc, drv, only_prog=None):
                     res.sample({"program": prog, "function": r["fn"], "stage": stage, "status": r["status"], "paths_ref": r.get("paths_ref"), "pairs": r.get("pairs")})
     stats["wall_s"] = round(time.time() - t0, 1)
     stats["skipped_reasons"] = skipped_why
+    if f5:
+        from vlib.common import load_known
+        if any(k.get("id") == "F5" for k in load_known("C01")):
+            res.known("F5 Vec<int> elements are boxed with ref.i31: values outside [-2^30, 2^30) change under WebAssembly (%d call sites in the corpus, e.g. %s in %s)"
+                      % (len(f5), f5[0]["function"], f5[0]["program"]))
+        else:
+            for x in f5[:5]:
+                res.violation("Vec<int> element is truncated to 31 bits in %s (%s)" % (x["function"], x["program"]), x)
+        stats["vec_i31_boxing_examples"] = f5[:3]
     return {"programs": len(programs), "corpus": programs, "et": stats, "bounds": {"function": fb, "whole_program": wb},
             "wasm_modules_validated": len(programs) - len(invalid), "disagreements_checked": stats["pairs"]}
+
+
+def run_module_validity(res, tier, sc, drv):
+    """C03: the real compiler must not crash on an accepted corpus program and the binary module it emits must be
+    valid (wasmparser, all proposals), both for the configuration users get and for the unoptimized pipeline."""
+    outroot = os.path.join(sc.root, "et")
+    checked = []
+    for name, mods in corpus(sc, tier):
+        if tier == "quick" and name == "repo-tests":
+            cfgs = "11111"
+        else:
+            cfgs = "11111,00000"
+        od = os.path.join(outroot, name)
+        p = drv.call(["dump", od, cfgs] + mods, check=False, timeout=900)
+        try:
+            status = json.loads(p.stdout.strip().split("\n")[-1])
+        except Exception:
+            raise Inconclusive("driver dump failed for %s: %s" % (name, (p.stdout + p.stderr)[-500:]))
+        if status.get("status") == "panic":
+            res.violation("the compiler panics on the accepted program %s" % name, {"program": mods})
+            continue
+        if status.get("status") != "ok":
+            raise Inconclusive("corpus program %s is not accepted: %s" % (name, str(status)[:500]))
+        for vf in ["wasm_validation.json"] + (["wasm_validation_00000.json"] if "00000" in cfgs else []):
+            v = json.load(open(os.path.join(od, vf)))
+            checked.append({"program": name, "file": vf, "valid": not v.get("error")})
+            if v.get("error"):
+                res.violation("emitted WebAssembly module of %s is invalid (%s): %s" % (name, vf, v["error"]),
+                              {"program": name, "modules": mods, "wasmparser": v["error"], "defined_function_index": v.get("defined_function_index")})
+    return {"modules_validated": checked}
